@@ -169,7 +169,8 @@ ADDENDA = {
          ' A link\'s serial number and data offset in the per-link tables derive from reads of the stream state whose last '
          'writer is that link\'s header fetch (R09.8), and so does the lower bound handed to the next bisection level (R09.9); the loop that searches for the end of a link '
          'is left only through its guard or an error return (R09.10); vf->current_link indexes a per-link table only behind a '
-         'seekable test, also one made by a callee that refuses a streaming handle (R09.11).',
+         'seekable test, also one made by a callee that refuses a streaming handle (R09.11); nothing reachable from the link scan '
+         'stores current_serialno or current_link (R09.12).',
          ' + K4 range obligations on link searches + provenance/last-writer analysis'),
  'C10': ('_fetch_headers performs the stream set-up of the link in every call that reports success, whatever state the handle '
          'was entered in (R10.4); serial numbers in the link table see their link\'s header fetch (R10.5); a fetched page is '
